@@ -168,6 +168,13 @@ def hist_scripts(ctx, cfg, sim=None):
         scripts = [parse_tla(t) for t in strs]
     except ValueError as e:
         raise core.MachineryError("cannot decode a script printed by TLC: %s" % e)
+    for sc in scripts:          # ListingOf(e) of the specification: the members of the suffrage of that height by (i * key) % Mod
+        suf = {}
+        for e in sc:
+            if e["k"] == 0:
+                suf[e["g"]] = e["suf"]
+            else:
+                e["listing"] = sorted(suf[e["h"] - 1], key=lambda i: (i * e["key"]) % k["Mod"])
     return [{"script": sc, "order": order} for sc in scripts if any(e["k"] == 1 for e in sc)]
 
 
